@@ -180,6 +180,14 @@ fn sampled(rng: &mut Rng) -> Scenario {
                 };
                 sc.actions.push((k, a));
             }
+            if m != Meth::BDF && rng.bool(0.2) {
+                // dense output off, interpolants on demand (ControlFlag::XOut)
+                sc.low_dense = false;
+                let k = pick_k(rng);
+                if !used.contains(&k) {
+                    sc.actions.push((k, Action::XOut(sc.x0 + (sc.xend - sc.x0) * rng.f())));
+                }
+            }
         }
         1 => {
             // identity-only plans (twin: no-op)
